@@ -3,7 +3,7 @@
 cd /verif
 for p in C01 C02 C03 C04 C05 C06 C07 C08 C09 C10 C11 C12 C13 C14 C15 C16 C17 C18 C19 C20; do
   s=$(date +%s)
-  out=$(env OMP_NUM_THREADS=1 PYTHONHASHSEED=0 timeout 900 /venv/bin/python sim/run.py --property $p --tier ${1:-quick} 2>&1)
+  out=$(env OMP_NUM_THREADS=1 PYTHONHASHSEED=0 ${VOUT:+VERIF_OUT=$VOUT} timeout 900 /venv/bin/python sim/run.py --property $p --tier ${1:-quick} 2>&1)
   rc=$?
   echo "$p rc=$rc $(( $(date +%s) - s ))s $(echo "$out" | grep -c '^KNOWN-FINDING') known | $(echo "$out" | head -1 | cut -c1-120)"
   echo "$out" | grep -E "^VIOLATION|^HARNESS" | head -5
